@@ -14,7 +14,8 @@ EXPLANATION = (
     'second part, result = that buffer. Given R14.1/R14.2 equivalence with the composed calls follows for all inputs '
     'because the composed functions are functions of their arguments (C18). R14.3: every single-shot, setup and context '
     'body generic over A/Kdf/Kem mentions no concrete Aead/Kdf/Kem implementor (a block-level `type Kdf = …` alias would '
-    'silently re-instantiate the unchanged setup call with another suite). Not decided: nothing behavioural beyond '
+    'silently re-instantiate the unchanged setup call with another suite). R14.4: the two opening entry points agree on '
+    'their first check (exhausted context refused before the AEAD is touched), so they refuse alike for the same split. Not decided: nothing behavioural beyond '
     'that composition argument.')
 TRUSTED = ['rustc MIR construction', 'core::ops::Try / FromResidual for Result (identity From<T> for T)',
            'alloc::vec::from_elem / slice::to_vec / copy_from_slice / split_at semantics']
@@ -338,6 +339,17 @@ def run(ctx):
     for a, setups in ss:
         check_single_shot(rep, facts, a, setups)
     run_alloc_forms(rep, facts, alloc)
+    # R14.4: for the same split the allocating and the in-place open must also *refuse* alike: both refuse an exhausted
+    # context before anything else (sibling agreement of the two opening entry points on their first check)
+    from . import c05
+    from .aeadctx import aead_sites as _sites
+    site_keys = {sa.body.key for sa, _, _, _ in _sites(facts, 'decrypt_in_place_detached')}
+    checked = set()
+    eps = c05.entry_points(facts)
+    for a2 in [x for x in eps if x.body.key in site_keys] + [x for x in eps if x.body.key not in site_keys]:
+        calls_site = a2.body.key in site_keys or any(((c.get('resolved') or {}).get('key') in site_keys or c.get('key') in site_keys) for _, _, c in a2.calls() if c)
+        if calls_site and c05.check_overflow_first(rep, facts, a2, checked, rule='R14.4'):
+            checked.add(a2.body.key)
     # R14.3: the composed and the single-shot form run the *same* suite: single-shot and context bodies are parametric
     from .common import check_suite_parametric
     check_suite_parametric(rep, facts, 'R14.3', scope=lambda b: b.key.startswith(('single_shot::', 'setup::', 'aead::AeadCtx')),
